@@ -156,6 +156,15 @@ func txMethods() []reflect.Method {
 }
 
 func runC20(c *CaseCtx) {
+	if c.Case%64 == 9 {
+		kind := []string{"kv", "set", "zset", "list"}[c.Rng.Intn(4)]
+		modes := []int{0}
+		if kind == "kv" {
+			modes = []int{0, 1, 2}
+		}
+		largeHistory(c, "api", largeOpts{Kind: kind, Modes: modes, Merge: true, Backup: c.Case%128 == 9})
+		return
+	}
 	r := c.Rng
 	cfg := randCfg(r, []int{0, 0, 1, 2}, 200, 2000)
 	dir := c.Dir("db")
